@@ -509,11 +509,16 @@ class AdjustGenericType(visitors.Visitor):
 class AdjustReturnAndConstantGenericType(visitors.Visitor):
   """Changes "object" to "Any" in return and constant types."""
 
+  def _Adjust(self, t):
+    # Replacing "object" by "Any" inside a union makes the union collapse, so
+    # simplify again; otherwise a second optimization pass would change it.
+    return t.Visit(AdjustGenericType()).Visit(SimplifyUnions())
+
   def VisitSignature(self, sig):
-    return sig.Replace(return_type=sig.return_type.Visit(AdjustGenericType()))
+    return sig.Replace(return_type=self._Adjust(sig.return_type))
 
   def VisitConstant(self, c):
-    return c.Replace(type=c.type.Visit(AdjustGenericType()))
+    return c.Replace(type=self._Adjust(c.type))
 
 
 class AddInheritedMethods(visitors.Visitor):
